@@ -57,6 +57,29 @@ class Mask:
         return f"Mask({self.truth}, {self.n})"
 
 
+class Hollow:
+    """A user container that is FALSY although indexing it yields values (a lazily filled registry, an empty
+    defaultdict with a default factory, a proxy with __len__() == 0): `bool(h)` is False, `h[i]` is items[i]."""
+
+    def __init__(self, items: Any) -> None:
+        self.items = tuple(items)
+
+    def __len__(self) -> int:
+        return 0
+
+    def __getitem__(self, i: Any) -> Any:
+        return self.items[i]
+
+    def __eq__(self, other: Any) -> bool:
+        return isinstance(other, Hollow) and other.items == self.items
+
+    def __hash__(self) -> int:
+        return hash(("Hollow", self.items))
+
+    def __repr__(self) -> str:
+        return f"Hollow{self.items!r}"
+
+
 class Grid:
     """A user container indexed by a TUPLE key: g[i, j] is a cell, which is not the same thing as g[i][j]
     (g[i] is a row object).  Stands for mappings keyed by tuples and for multi-axis indexing."""
@@ -143,6 +166,8 @@ class _Row:
 def enc(v: Any) -> Any:
     if isinstance(v, Mask):
         return {"M": [v.truth, v.n]}
+    if isinstance(v, Hollow):
+        return {"H": [enc(x) for x in v.items]}
     if isinstance(v, tuple):
         return {"T": [enc(x) for x in v]}
     if isinstance(v, list):
@@ -156,6 +181,8 @@ def dec(j: Any) -> Any:
     if isinstance(j, dict):
         if "M" in j:
             return Mask(j["M"][0], j["M"][1])
+        if "H" in j:
+            return Hollow(dec(x) for x in j["H"])
         if "T" in j:
             return tuple(dec(x) for x in j["T"])
         if "L" in j:
@@ -209,6 +236,8 @@ def compute(fn: str, spec: Dict[str, Any], site: Optional[str], args: Tuple[Any,
         return args[0]
     if kind == "pack":
         return tuple(args)
+    if kind == "hpack":
+        return Hollow(args)
     if kind == "const":
         return dec(spec["val"])
     if kind == "waitev":
@@ -629,7 +658,8 @@ def ref_run(P: Dict[str, Any], args: Any, R: Optional[Ref] = None, active: bool 
             raise ValueError(k)
     out = _ret_eval(P["ret"], env, lambda e, en: _val(_ev_ref(e, en)))
     if not active:
-        out = _all_none(out)
+        # (a parameter handed back as the single return value is ONE output, whatever container it holds)
+        out = None if (P["ret"] is not None and P["ret"][0] == "x" and P["ret"][1][0] == "p") else _all_none(out)
     return out
 
 
